@@ -595,6 +595,9 @@ def check(run):
     from props import c06 as _c06
     _c06.r7_errors_merged(run, F)
     _c06.r8_combiners_keep_both(run, F)
+    # the first-generation parser counts `&` in a u8 as well: the bound is checked inside the loop (shared with C15.R15)
+    from props import c15 as _c15
+    _c15.r15_counters_bounded_in_loop(run, F, part="/alpha/", floor=1)
     r14_location_guarded(run, F)
     # later stages assert well-formed types instead of diagnosing them: every type position must parse through the check (C11.R7)
     from props import c11 as _c11
